@@ -4,6 +4,9 @@
 use crate::engine::*;
 use std::collections::{BTreeMap, HashMap};
 
+/// stop minimising once this many cores outside the known-findings list have been found in one job
+pub const MAX_UNLISTED_CORES: usize = 4;
+
 pub struct CoreFailure {
     pub kind: String,
     pub core_key: String,
@@ -32,7 +35,9 @@ pub struct JobOutcome {
 pub trait JobT: Send + Sync {
     fn label(&self) -> String;
     fn system(&self) -> &'static str;
-    fn run(&self, threads: usize, site_kinds: &std::collections::HashSet<String>) -> JobOutcome;
+    /// `known`: (kind, core key) pairs a listed finding matches for this property and system; once several
+    /// cores outside it are established the remaining failures are only counted, not minimised
+    fn run(&self, threads: usize, site_kinds: &std::collections::HashSet<String>, known: &std::collections::HashSet<(String, String)>) -> JobOutcome;
     /// re-execute one abstract history with this job's oracles; returns (text report, failures)
     fn replay(&self, abs: &[Abs]) -> (String, Vec<Failure>);
     /// stand-alone Rust test for a failure of `abs` at knowledge set `mask`
@@ -250,14 +255,21 @@ impl<Y: Sys> JobT for Job<Y> {
     fn system(&self) -> &'static str {
         Y::NAME
     }
-    fn run(&self, threads: usize, site_kinds: &std::collections::HashSet<String>) -> JobOutcome {
+    fn run(&self, threads: usize, site_kinds: &std::collections::HashSet<String>, known: &std::collections::HashSet<(String, String)>) -> JobOutcome {
         let t0 = std::time::Instant::now();
         let res = explore::<Y>(&self.cfg, self.visitor.as_ref(), threads, site_kinds);
         let mut cache = HashMap::new();
         let mut cores_memo = HashMap::new();
         let mut by_core: BTreeMap<(String, String), CoreFailure> = BTreeMap::new();
         let failing = res.sink.failures.len() as u64 + res.sink.site_counts.values().map(|v| v.0).sum::<u64>();
+        let mut unlisted = 0usize;
+        let mut not_minimised = 0u64;
         for f in res.sink.failures.iter() {
+            if unlisted >= MAX_UNLISTED_CORES {
+                // the verdict (violation) is established; do not spend minutes minimising thousands of further failures
+                not_minimised += 1;
+                continue;
+            }
             let core = self.core_of(&f.hist, &f.kind, &mut cache, &mut cores_memo);
             let key = canon_key::<Y>(&core);
             let e = by_core.entry((f.kind.clone(), key.clone())).or_insert_with(|| CoreFailure {
@@ -269,7 +281,13 @@ impl<Y: Sys> JobT for Job<Y> {
                 example_text: show_hist::<Y>(&f.hist),
                 histories: 0,
             });
+            if e.histories == 0 && !known.contains(&(e.kind.clone(), e.core_key.clone())) {
+                unlisted += 1;
+            }
             e.histories += 1;
+        }
+        if not_minimised > 0 {
+            eprintln!("  note: {} further failing histories of {} were counted but not minimised (violation already established)", not_minimised, self.cfg.label);
         }
         for (kind, (n, f)) in res.sink.site_counts.iter() {
             by_core.insert((kind.clone(), "*".to_string()), CoreFailure { kind: kind.clone(), core_key: "*".into(), core_text: show_hist::<Y>(&f.hist), core: f.hist.clone(), example: f.clone(), example_text: show_hist::<Y>(&f.hist), histories: *n });
